@@ -2,6 +2,7 @@
   C07 — Unknown options are never silently accepted.
 -/
 import GoFlags.Lemmas.ParseLog
+import GoFlags.Props.C03
 
 namespace GoFlags.C07
 open GoFlags Bytes
@@ -91,5 +92,41 @@ theorem handler_result_is_parsed_next (h : Handler) (name : Bytes) (args args' :
 theorem handler_events_only (E : Env) (help : HelpFn) (P : Parser) (argv : List Bytes) :
     ∀ ev ∈ (parsePhase E help P argv).log, ev.duringParse = true :=
   parsePhase_log E help P argv
+
+
+/-! ### Whole command lines under IgnoreUnknown -/
+
+/-- **With IgnoreUnknown every unknown option is passed through verbatim, in place, and parsing
+    continues**: for a command line of any length that mixes occurrences of declared options,
+    plain words and long options that are not in scope (no positional pending, no subcommands below
+    the command reached), the parser ends with exactly the plain words AND the unknown options, as
+    typed, in their order, appended to what it held — and every declared occurrence around them is
+    applied as if they were not there (`parseLoop_of_items`: the loop is the fold of the per-token
+    step). -/
+theorem ignored_unknown_options_pass_through_in_place (E : Env) (help : HelpFn) (items : List Item) (fuel : Nat) (s : PS)
+    (hf : items.length < fuel) (hargs : s.args = renderItems items) (hok : ItemsOK s items)
+    (hres : (applyItems E help s items).2 = none) (hq : s.positional = []) :
+    parseLoop E help fuel s = (applyItems E help s items).1 ∧
+    (parseLoop E help fuel s).retargs = s.retargs ++ wordsOf items :=
+  ⟨parseLoop_of_items E help items fuel s hf hargs hok hres,
+   C03.remaining_are_exactly_the_words E help items fuel s hf hargs hok hres hq⟩
+
+/-! non-vacuity: `--zz=1 --v a` on a parser with one flag `--v` and IgnoreUnknown: the unknown option
+    is a passed token, and it comes back in place -/
+def exIgnP : Parser := { cmds := [{ groups := [{ opts := [{ long := B "v", ty := .sc .bool }] }] }], opts := { ignoreUnknown := true } }
+def exIgnItems : List Item := [.word (longToken (B "zz") (some (B "1"))), .occ (B "v", none), .word (B "a")]
+def exIgnS : PS := { P := exIgnP, args := renderItems exIgnItems }
+example : ItemsOK exIgnS exIgnItems :=
+  ⟨by decide, by decide,
+   by intro it h; simp [exIgnItems, occsOf] at h; subst h; exact ⟨⟨by decide, by decide, by decide⟩, ⟨0,0,0⟩, by decide, fun _ => by decide⟩,
+   by
+    intro w h
+    simp [exIgnItems, wordsOf] at h
+    rcases h with h | h
+    · subst h
+      exact Or.inr ⟨by decide, B "zz", some (B "1"), rfl, ⟨by decide, by decide, by decide⟩, by decide⟩
+    · subst h; exact Or.inl ⟨by decide, by decide⟩⟩
+example : (applyItems default (fun _ => []) exIgnS exIgnItems).2 = none := by decide
+example : (applyItems default (fun _ => []) exIgnS exIgnItems).1.retargs = [B "--zz=1", B "a"] := by decide
 
 end GoFlags.C07
